@@ -147,7 +147,10 @@ func (p *Path) TreePrefix() string {
 				return p.relativePath + "/"
 			}
 		default:
-			return "???"
+			// Nothing is known about how this tree is reached (for
+			// example, it is only reachable through an annotated
+			// tag). Its object ID is a valid tree-ish, too.
+			return p.OID.String() + ":"
 		}
 	case "commit", "tag":
 		switch {
